@@ -687,6 +687,15 @@ def run_harness(ctx, jobs):
         with concurrent.futures.ThreadPoolExecutor(max_workers=3) as ex:
             for r in ex.map(lambda k: ctx.batch(lst[k::3], workers=1, clean=True, env={"TMPDIR": dirs[k]}), range(3)):
                 impl.update(r)
+        # a transcript with the wrong number of lines (seen once in ~4000 jobs on a machine with load 65: one extra line, not reproducible) is
+        # re-run once on its own: a defect of the library is deterministic and shows again; what does not repeat is counted and kept in the notes
+        odd = [j for j in jobs if len(impl.get(j.name, [])) != len(j.lines)]
+        if odd and len(odd) <= 8:
+            again = ctx.batch([(j.name, hs[j.name]) for j in odd], workers=1, clean=True, env={"TMPDIR": dirs[0]})
+            for j in odd:
+                if len(again.get(j.name, [])) == len(j.lines):
+                    ctx.notes.setdefault("alac_transcripts_not_repeated", []).append({"job": j.name, "first_run": [l[:80] for l in impl.get(j.name, [])][:14]})
+                    impl[j.name] = again[j.name]
     finally:
         for d in dirs:
             shutil.rmtree(d, ignore_errors=True)
